@@ -391,7 +391,7 @@ pub fn pkg_cmd(st: &mut State, name: &str, args: &[Sx]) -> Option<Sx> {
                 Err(_) => Some(Sx::err()),
             }
         }
-        ("open_raw", [clsid, entries]) => {
+        ("open_raw", [clsid, entries]) | ("x_open_raw", [clsid, entries]) => {
             let es: Vec<(String, Vec<u8>)> =
                 entries.as_list().iter().map(|e| (e.as_list()[0].as_string(), e.as_list()[1].as_bytes())).collect();
             let bytes = build_cfb(&clsid.as_bytes(), &es);
@@ -403,7 +403,7 @@ pub fn pkg_cmd(st: &mut State, name: &str, args: &[Sx]) -> Option<Sx> {
                 "create_table" | "drop_table" | "insert" | "delete" | "update" | "select" | "tables" | "ptype" | "db_cp"
                     | "set_db_cp" | "streams" | "has_stream" | "read_stream" | "write_stream" | "remove_stream" | "has_sig"
                     | "remove_sig" | "sum_get" | "sum_set" | "sum_clear" | "flush" | "reopen" | "raw" | "rows" | "stream_data"
-                    | "writes" | "snapshot" | "x_raw"
+                    | "writes" | "snapshot" | "x_raw" | "x_insert_range" | "x_count" | "x_delete_range"
             ) {
                 return None;
             }
@@ -430,6 +430,26 @@ pub fn pkg_cmd(st: &mut State, name: &str, args: &[Sx]) -> Option<Sx> {
                 None => return Some(Sx::sym("nopkg")),
             };
             Some(match (name, args) {
+                // bulk helpers for the capacity boundaries (C20); judged by the oracle only ("x_": the model is silent)
+                ("x_insert_range", [n, lo, hi, with_str]) => {
+                    let mut q = Insert::into(n.as_string());
+                    for k in lo.as_int()..=hi.as_int() {
+                        let mut row = vec![msi::Value::Int(k as i32)];
+                        if with_str.as_bool() {
+                            row.push(msi::Value::Str(format!("s{}", k)));
+                        }
+                        q = q.row(row);
+                    }
+                    unit_res(p.insert_rows(q))
+                }
+                ("x_count", [n]) => match p.select_rows(Select::table(n.as_string())) {
+                    Ok(rows) => Sx::ok(Sx::I(rows.count() as i128)),
+                    Err(_) => Sx::err(),
+                },
+                ("x_delete_range", [n, lo, hi]) => {
+                    let cond = msi::Expr::col("K").ge(msi::Expr::integer(lo.as_int() as i32)).and(msi::Expr::col("K").le(msi::Expr::integer(hi.as_int() as i32)));
+                    unit_res(p.delete_rows(Delete::from(n.as_string()).with(cond)))
+                }
                 ("create_table", [n, cols]) => {
                     unit_res(p.create_table(n.as_string(), cols.as_list().iter().map(sx_column).collect()))
                 }
